@@ -30,7 +30,7 @@ import (
 	"verif/harness/internal/replay"
 )
 
-const hugeLimit = 1 << 20  // mutants whose framing declares a longer message are not executed (see declaresHuge)
+const hugeLimit = 1 << 20 // mutants whose framing declares a longer message are not executed (see declaresHuge)
 const junkLimit = 64 << 10 // ... and junk tails (run in-process, many times) stay below this
 
 type pos struct{ S, B int }
